@@ -39,6 +39,7 @@ def cases(tier, seed):
         # (the library rejects it with an explicit "Flattening the training labels failed" error) -> plain fantasies only
         for pat, depth, fpv in itertools.product(["m"], [1, 2, 3], [False, True]):
             yield {"kind": "mt", "pattern": pat, "depth": depth, "fast_pred_var": fpv, "detach": True, "n": 4, "m": 2, "t": 2, "seed": rnd.randrange(10**6)}
+            yield {"kind": "mt", "pattern": pat, "depth": depth, "fast_pred_var": fpv, "detach": True, "n": 4, "m": 2, "t": rnd.choice([2, 3]), "rank": rnd.choice([1, 2]), "seed": rnd.randrange(10**6)}
         for depth in (1, 2):
             yield {"kind": "modellist", "depth": depth, "seed": rnd.randrange(10**6)}
         for members, fpv in itertools.product((["fixed", "gauss"], ["gauss", "fixed"], ["fixed", "fixed"], ["fixed", "gauss", "fixed"], ["fixed+learn", "gauss"]), [False, True]):
@@ -277,7 +278,8 @@ def _single(case, ctx, g):
     with contextlib.ExitStack() as st:
         if case.get("iterative"):
             # more points than max_cholesky_size: every solve is CG, every root a Lanczos one
-            for c_ in (S.max_cholesky_size(0), S.cg_tolerance(1e-8), S.eval_cg_tolerance(1e-8), S.max_cg_iterations(3000), S.max_root_decomposition_size(8), S.max_preconditioner_size(0)):
+            # (only the PREDICTION-time tolerance is tightened: every solve a prediction needs runs under eval_cg_tolerance)
+            for c_ in (S.max_cholesky_size(0), S.eval_cg_tolerance(1e-8), S.max_cg_iterations(3000), S.max_root_decomposition_size(8), S.max_preconditioner_size(0)):
                 st.enter_context(c_)
         st.enter_context(S.fast_pred_var(case["fast_pred_var"]))
         st.enter_context(S.detach_test_caches(case["detach"]))
@@ -441,7 +443,7 @@ def _mt(case, ctx, g):
 
     n, m, t = case["n"], case["m"], case["t"]
     X, y = util.randn(g, n, 2), util.randn(g, n, t)
-    lik = gpytorch.likelihoods.MultitaskGaussianLikelihood(num_tasks=t, rank=0)
+    lik = gpytorch.likelihoods.MultitaskGaussianLikelihood(num_tasks=t, rank=case.get("rank", 0))  # rank > 0: inter-task noise
     model = util.MTGP(X, y, lik, t, 1, {"k": "rbf"}, 2)
     util.randomize(model, g, 0.5)
     model.eval()
@@ -464,7 +466,7 @@ def _mt(case, ctx, g):
             yall = torch.cat([yall.expand(*fb, *yall.shape[-2:]), yf], -2)
             Kxx, Ksx, Kss, mx, ms = util.prior_pieces(model, Xall, xs.expand(*fb, *xs.shape[-2:]))
             N = Xall.shape[-2]
-            D = torch.diag_embed(lik.task_noises.detach()) + lik.noise.detach() * torch.eye(t)
+            D = (torch.diag_embed(lik.task_noises.detach()) if lik.rank == 0 else lik.task_noise_covar.detach()) + lik.noise.detach() * torch.eye(t)
             Sn = torch.kron(torch.eye(N), D)
             ref_m, ref_c, _, _ = util.dense_conditional(Kxx, Ksx, Kss, mx.reshape(*mx.shape[:-2], -1), ms.reshape(*ms.shape[:-2], -1), Sn, yall.reshape(*yall.shape[:-2], -1))
             out = fm(xs)
